@@ -250,6 +250,55 @@ theorem C07_paramsOk_of_front_end (items : List Item) (a : Ast) (ha : Ast.ofItem
   · cases hmem
 
 
+/-- **C07: the whole type part of the judgement, for every supported specification.**  `outputOk` (the judgement that stands in
+    for rustc) is exactly `outputTypesOk && outputHygiene` (`outputOk_split`).  `outputTypesOk` — every declaration resolves and
+    carries its parameter iff used, every decoder of both families fits its declaration, the two families are identical, one
+    size impl per decoder in the same order — holds for EVERY specification in the supported subset that satisfies the four
+    decidable side conditions (`paramsOk`, `paramsUsed`: proved of every `Ast` the front end builds; `labelsTyped`,
+    `variantsDistinct`: evaluated per campaign specification).  What is left to evaluation is `outputHygiene`: identifiers,
+    reserved names, the K9 bindings, duplicate names, recursion without indirection — conditions on the names a specification
+    chooses — and the agreement of the judgement with rustc itself, measured on every compiled batch. -/
+theorem C07_types_part (a : Ast) (m : Module) (hs : Supported a = true) (hp : paramsOk a = true) (hu : paramsUsed a = true)
+    (hl : labelsTyped a = true) (hv : variantsDistinct a = true) (hg : generateModule a = .ok m) :
+    outputTypesOk a m = true ∧ outputOk a m = outputHygiene m := by
+  have h1 := declarations_fit hs hp hu hg
+  have h2 := (C07_decoders_fit_declarations a m hs hp hl hv hg).1
+  have h3 : decide (m.fromBytes = m.fromRefMut) = true := by simp [C07_families_identical a m hg]
+  have h4 : ((m.fromRefMut.map (·.name)) == (m.sizes.map (·.name))) = true := by
+    obtain ⟨_, hb, hc⟩ := C07_three_impls_per_declaration a m hg
+    rw [hb, hc]; exact beq_self_eq_true _
+  have ht : outputTypesOk a m = true := by simp only [outputTypesOk, h1, h2, h3, h4, Bool.and_self]
+  exact ⟨ht, by rw [outputOk_split, ht, Bool.true_and]⟩
+
+/-- the struct / union half of the parameter hypotheses is a theorem about the front end too -/
+theorem C07_paramsUsed_of_front_end (items : List Item) (a : Ast) (ha : Ast.ofItems items = .ok a)
+    (hnd : (gnames (items.filterMap gitemOf)).Nodup)
+    (hne : ∀ u, Item.union u ∈ items → ∀ c ∈ u.cases, c.caseValues ≠ []) : paramsUsed a = true := by
+  have hty : a.types = TypeIndex.new items := by
+    unfold Ast.ofItems at ha
+    cases hc : ConstantIndex.new items with
+    | panicAt f m => simp [hc] at ha
+    | ok cs => simp only [hc, Out.bind_ok] at ha; cases ha; rfl
+  simp only [paramsUsed, List.all_eq_true]
+  intro kv hkv
+  rw [hty, TypeIndex.new] at hkv
+  rcases mem_foldl_bins _ _ kv hkv with hmem | hmem
+  · obtain ⟨item, hitem, hentry⟩ := List.mem_filterMap.mp hmem
+    cases item with
+    | constant n v => simp [typeEntry] at hentry
+    | enum e => simp only [typeEntry] at hentry; cases hentry; rfl
+    | typedef t => simp only [typeEntry] at hentry; cases hentry; rfl
+    | struct s =>
+      simp only [typeEntry] at hentry; cases hentry
+      simp only [beq_iff_eq]
+      exact C13.C13_struct_param_iff_used items a ha hnd s hitem
+    | union u =>
+      simp only [typeEntry] at hentry; cases hentry
+      simp only [beq_iff_eq]
+      exact C07_union_param_declared_iff_used items a ha hnd u hitem (hne u hitem) (a.isGeneric u.name) (unionVariants a u) rfl
+  · cases hmem
+
+
 /-- non-vacuity: `const A = 3; enum e { M = 1 }; struct s { opaque o<A>; unsigned int n; }; typedef unsigned int t;
     union u switch (e d) { case M: s x; }` satisfies all four hypotheses -/
 def exAst : Ast :=
@@ -260,6 +309,6 @@ def exAst : Ast :=
               ("t", .typedef ⟨.u32, .none (.ident "t")⟩),
               ("u", .union ⟨"u", [⟨["M"], "x", .none (.ident "s")⟩], none, [], ⟨"d", .ident "e"⟩⟩)] }
 
-example : Supported exAst = true ∧ paramsOk exAst = true ∧ labelsTyped exAst = true ∧ variantsDistinct exAst = true := by decide
+example : Supported exAst = true ∧ paramsOk exAst = true ∧ paramsUsed exAst = true ∧ labelsTyped exAst = true ∧ variantsDistinct exAst = true := by decide
 
 end Fx.C07
